@@ -125,6 +125,9 @@ def run(ctx):
             w = "".join(t)
             for k in range(len(w) + 1):
                 pairs.append((w[:k], w[k:]))
+    L = lambda n: "a" * n
+    pairs += [("a", ".".join([L(63), L(63), L(63), L(61)])), ("a", ".".join([L(63), L(63), L(63), L(60)])), (L(64), ".".join([L(63), L(63), L(63), L(59)])),
+              (L(64), ".".join([L(63), L(63), L(63)])), (L(10), ".".join([L(63), L(63), L(63), L(50)]))]
     pairs += [("u", "[x@y]"), ("a", "x.org"), ('"a@b"', "c.d"), ("a@b", "c.d"), ("a", "b@c.d"), ("a", "[1.2.3.4]"), ("a", "::1"), ("é", "é.example")]
     pi, pmod, porc, _ = with_oracles("new", pairs)
     ctx.count(len(pairs) * 2)
